@@ -11,6 +11,7 @@ import GivaroModel.Lemmas.RecIntMixed
 import GivaroModel.Lemmas.RecIntBezout
 import GivaroModel.Lemmas.RecIntSignedLemmas
 import GivaroModel.Lemmas.RecIntWords
+import GivaroModel.Lemmas.RecIntSignedMod
 namespace Givaro.Props.C06
 open Givaro.Model.RecInt
 
@@ -489,6 +490,25 @@ theorem rint_shr_exact {n : Nat} (b : RU n) (d : Nat) (hb : WF b) : WF (s_shr b 
 
 -- non-vacuity: negative and positive well-formed operands exist (−1 and 1 at 128 bits)
 example : ∃ a b : RU 1, WF a ∧ WF b ∧ sval a < 0 ∧ 0 < sval b ∧ sval b ≠ 0 :=
+  ⟨ones 1, ofLimb 1 1, by simp [ones, WF, B64], by simp [ofLimb, zero, WF, B64], by decide, by decide, by decide⟩
+
+/-- `mod_n(rint& a, const rint& n)` for a positive modulus: the non-negative residue `a mod n` (floor convention, `mpz_mod`), also for
+    negative `a` (`n - ((-a) mod n)`, or 0) -/
+theorem rint_modn_exact (t : Nat) {n : Nat} (a m : RU n) (ha : WF a) (hm : WF m) (hpos : 0 < sval m) :
+    WF (s_modn t a m) ∧ sval (s_modn t a m) = sval a % sval m := s_modn_ok t a m ha hm hpos
+
+/-- `mod_n(rint<K>& a, const rint<K+1>& b, const rint<K>& c)` (double-width argument) for a positive modulus: `b mod c ≥ 0` -/
+theorem rint_modn_wide_exact (t : Nat) {n : Nat} (b : RU (n+1)) (c : RU n) (hb : WF b) (hc : WF c) (hpos : 0 < sval c) :
+    WF (s_modn2 t b c) ∧ sval (s_modn2 t b c) = sval b % sval c := s_modn2_ok t b c hb hc hpos
+
+/-- `inv_mod(rint& a, b, c)` for a positive modulus `c` and every `b`, negative ones included (reduced to `c - ((-b) mod c)` first), that is
+    coprime to `c`: `0 ≤ a < c` and `c ∣ a·b - 1` -/
+theorem rint_invmod_exact (t : Nat) {n : Nat} (b c : RU n) (hb : WF b) (hc : WF c) (hpos : 0 < sval c)
+    (hcop : Nat.gcd (sval b).natAbs (sval c).natAbs = 1) :
+    WF (s_invmod t b c) ∧ 0 ≤ sval (s_invmod t b c) ∧ sval (s_invmod t b c) < sval c ∧
+    (sval c : Int) ∣ sval (s_invmod t b c) * sval b - 1 := s_invmod_ok t b c hb hc hpos hcop
+
+example : ∃ b c : RU 1, WF b ∧ WF c ∧ 0 < sval c ∧ sval b < 0 ∧ Nat.gcd (sval b).natAbs (sval c).natAbs = 1 :=
   ⟨ones 1, ofLimb 1 1, by simp [ones, WF, B64], by simp [ofLimb, zero, WF, B64], by decide, by decide, by decide⟩
 
 /-! ### conversions between `ruint<K>` / `rint<K>` and the built-in types (ruruint.h constructors and casts, rrint.h) -/
